@@ -30,7 +30,11 @@ inductive Parsed
   | tooBig                   -- declared length > 2^34: "Invalid block size"
 deriving DecidableEq, Repr
 
-/-- what one decoding task does while it holds the token -/
+/-- what one decoding task does while it holds the token (format level).  The implementation
+additionally rejects, before reading any payload bit, a declared length above what an encoder can
+produce for the stream's block size (fix F25): that bound is modelled in `Kanzi.Block.parseFrame`
+(Model/Block.lean), which is proved to agree with this function for frames within the bound and is
+the one compared with the real Reader (image stream, `imgx` ops). -/
 def parseFrame (bs : Bits) : Parsed :=
   if bs.length < 5 then .eos
   else
